@@ -46,6 +46,44 @@ T = {
 }
 T['C06-1'] = ('C06', 'Filter::event_matches early-out: "an event with fewer tags than the filter has tag constraints cannot match" (a pigeonhole argument that only holds for distinct constraint names)',
               'a filter built from parts with two constraints of the same name (the JSON parser rejects those) and an event with fewer tags than constraints that satisfies them all, e.g. filter [["e","aa"],["e","aa","bb"]] and event [["e","aa"]]')
+
+# ---- second wave (same blind protocol, worktrees under /tmp/seed2; agents asked to avoid the most obvious place)
+T.update({
+ 'C01-2': ('C01', 'burn_string rewritten to jump from quote to quote, deciding "escaped" from the two bytes before the quote: wrong for a backslash run of odd length >= 3',
+           'a string containing \\\" (escaped backslash then escaped quote) in a skipped position: content before tags, any tag string (counting pass), an unknown member'),
+ 'C02-2': ('C02', 'burn_string jumps to the next quote and treats it as closing unless the byte before is a backslash: wrong for a string whose value ends in a backslash',
+           'a tag string / content-before-tags / unknown-member string ending in \\ : as_json output of such an event is rejected by from_json'),
+ 'C03-2': ('C03', 'read_tags_array: the two "tag count mismatch" guards merged into one; "fewer tags decoded than counted" is no longer detected',
+           'a tag string ending in a UTF-8 lead byte right before its closing quote (the byte-wise counting pass and the code-point-wise decoding pass then disagree), with a tail valid in both readings: Ok with uninitialised offset slots, accessors panic'),
+ 'C04-2': ('C04', 'EventStore::new treats a header end offset outside HEADER_SIZE..len as "never initialised"; end == len (completely full map) is legal',
+           'the last append ends exactly at the file length (a multiple of the growth chunk), then the store is reopened: the map is reset to empty'),
+ 'C08-2': ('C08', 'TagsStringIter::next got an off-by-one bounds check (cur_offset + 2 >= end)',
+           'the last string of the last tag is empty: it is dropped from the hashed serialization (and from as_json)'),
+ 'C09-2': ('C09', 'Lmdb::index/deindex skip tags whose value is empty ("nothing to look up by")',
+           'a parameterized-replaceable event with d = "": no author+tag index entry, so the holder of (author, kind, "") is never found'),
+ 'C10-2': ('C10', 'the author checks of a deletion request moved in front of the write transaction (check-then-act)',
+           'two threads: another author\'s event commits between the foreign request\'s check and its write transaction; the request then removes it'),
+ 'C11-2': ('C11', 'key_naddr_index clamps identifiers longer than 182 bytes (a "dead branch" made live)',
+           'two addresses of one author and kind whose identifiers share their first 182 bytes: they share one deletion marker'),
+ 'C12-2': ('C12', 'a kind-5 request is committed before its tags are handled in a second transaction; only InvalidDelete rolls it back',
+           'a request that fails in the tag loop for another reason (own a tag with an identifier > 476 bytes: LMDB key too long): Err, but the request stays stored'),
+ 'C13-2': ('C13', 'store_event commits right after the pre-removal of the superseded version, appends, then indexes in a second transaction',
+           'a replaceable/parameterized event displacing a holder, killed between the two commits: old version gone, new one not indexed'),
+ 'C14-2': ('C14', 'find_events (author+kind plan) opens a fresh read transaction per author instead of one for the whole query',
+           'a multi-author query still running while two stores commit: it sees the later store but not the earlier one'),
+ 'C15-2': ('C15', 'a rejected deletion request rewinds the event map to a mark read before the write transaction',
+           'two threads: an event committed between the mark and the failing request\'s transaction is cut off and later overwritten'),
+ 'C16-2': ('C16', 'rebuild drains extra_table_names of the store it returns',
+           'a store with extra tables rebuilt twice without a reopen in between: the second rebuild copies no extra table'),
+ 'C17-2': ('C17', 'Tags::get_string bounds check tightened to offset >= end',
+           'an empty tag value that is the last value of the last tag (of a filter or event): get_string returns None, tag paths disagree'),
+ 'C18-2': ('C18', 'Lmdb::deindex refactored with map_while instead of filter_map: stops at the first non-indexed tag',
+           'an event with a multi-letter or valueless tag before a single-letter tag, then removed: stale tag-index entries'),
+ 'C20-2': ('C20', 'Hll8::add_element stops counting zero bits once the count reaches the bucket\'s current value',
+           'an element whose byte after the offset byte is 0x00 arriving while its bucket is lower: the register depends on arrival order'),
+})
+WAVE2 = {k for k in T if k.endswith('-2')}
+
 for sid, (prop, what, needs) in sorted(T.items()):
     d = os.path.join(ROOT, 'seeded', sid)
     res = open(os.path.join(d, 'result.txt')).read() if os.path.exists(os.path.join(d, 'result.txt')) else ''
@@ -59,12 +97,12 @@ for sid, (prop, what, needs) in sorted(T.items()):
             det.append({'check': m.group(1), 'kind': kind, 'first_report': why})
     meta = {
         'seed': sid, 'breaks_property': prop, 'change': what, 'needs_to_manifest': needs,
-        'origin': 'written by a sub-agent that saw only the text of property %s and a scratch git worktree of /repo (/tmp/seed/%s); nothing from /verif' % (prop, prop),
+        'origin': 'written by a sub-agent that saw only the text of property %s and a scratch git worktree of /repo (%s/%s); nothing from /verif' % (prop, '/tmp/seed2' if sid.endswith('-2') else '/tmp/seed', prop),
         'confirmed_by_me': {
-            'where': 'the scratch worktree /tmp/seed/%s (removed afterwards)' % prop,
-            'commands': ['sh tools/confirm_seed.sh /tmp/seed/%s' % prop],
+            'where': 'the scratch worktree %s/%s (removed afterwards)' % ('/tmp/seed2' if sid.endswith('-2') else '/tmp/seed', prop),
+            'commands': ['sh tools/confirm_seed.sh %s/%s' % ('/tmp/seed2' if sid.endswith('-2') else '/tmp/seed', prop)],
             'observed': 'with the patch: the repository\'s own 58 tests pass and the demonstration (seed_demo.rs) fails; without the patch the demonstration passes' +
-                        (' (needs --features verif for the forced kill point)' if sid == 'C13-1' else ''),
+                        (' (needs --features verif for the forced kill point)' if sid in ('C13-1', 'C13-2') else ''),
         },
         'run_against_checks': {'command': 'tools/try_seed.py seeded/%s/patch.diff   (git -C /repo apply; ./check Cxx for all 20; git -C /repo checkout -- .)' % sid,
                                'tier': 'quick', 'flagged_by': [x['check'] for x in det], 'own_property_check_flags_it': prop in [x['check'] for x in det], 'details': det},
